@@ -1,0 +1,27 @@
+//go:build verif
+
+package filesystem
+
+// Verification hooks (add-only, compiled only with -tags verif).
+
+// VerifKeyContext returns the associated data under which key ring `path` encrypts the
+// private (or symmetric) key with sequence number `seqnum`.
+func VerifKeyContext(path string, private bool, seqnum int) []byte {
+	s := &KeyStore{}
+	r := &KeyRing{store: s, path: path}
+	if private {
+		return s.keyStoreContext(r.keyRingContext(r.privateKeyContext(seqnum)))
+	}
+	return s.keyStoreContext(r.keyRingContext(r.symmetricKeyContext(seqnum)))
+}
+
+// VerifSignatureContext returns the context under which key ring `path` is signed.
+func VerifSignatureContext(path string) []byte {
+	return (&KeyStore{}).keyRingSignatureContext(path)
+}
+
+// VerifExportKeyContext returns the context of exported key ring bundles.
+func VerifExportKeyContext() []byte { return append([]byte{}, exportKeyContext...) }
+
+// VerifKeyringSuffix returns the suffix of key ring files.
+func VerifKeyringSuffix() string { return keyringSuffix }
